@@ -252,6 +252,48 @@ REGEN_CXA.update({"AlignOpts": ["editorAlignOpts_cxA", "editorAlign_cxA"],
                   "JustifyOpts": ["editorJustifyOpts_cxA", "editorJustify_cxA"]})
 
 
+# ---- transitive closure over the call graph (round 7 of seeded changes) -----------------------------
+# A property about Align also rests on what AlignLine* CALL: CountTrailingWhitespace -> gem.String.LastIndexFunc ->
+# Reverse ...  A change in a callee (seeded changes C13m: LastIndexFunc in blocks of 4096; C03m: CollapseSpace; C02m /
+# C01m: gem.Split) used to alarm only the properties that listed the callee's own group.  Now the groups of a property
+# are closed under "calls a function of group".
+REGEN_CALLS = {
+    "Gem": ["GemSplit"], "GemOps": ["Gem"], "GemRev": ["Gem", "GemOps"], "GemInv": ["Gem", "GemOps"],
+    "Block": ["Gem", "GemOps"], "BlockOps": ["Block"], "Align": ["Gem", "GemOps", "GemRev"],
+    "Collapse": ["Gem", "GemOps"], "Wrap": ["Collapse", "Block", "Gem", "GemOps"], "Justify": ["Collapse", "Gem", "GemOps"],
+    "Combine": ["Block", "Gem", "GemOps"], "Table": ["Align", "Block", "Gem", "GemOps"], "Options": ["Gem", "GemOps"],
+    "Chars": ["Gem"], "Edit": ["Chars", "Gem"], "Apply": ["Lines"], "Paras": ["Lines"],
+    "WrapOpts": ["Wrap", "Paras", "Options", "Block"], "IndentOpts": ["Apply", "Paras", "Options"],
+    "InsertTable": ["Table", "Edit", "Options"], "AlignOpts": ["Align", "Apply", "Paras", "Block", "Options"],
+    "JustifyOpts": ["Justify", "Apply", "Paras", "Block", "Lines", "Commit", "Chars", "Options"],
+    "TwoCol": ["Wrap", "Combine", "Edit", "Options", "Block"], "DefTable": ["Wrap", "Combine", "BlockOps", "Edit", "Options"],
+}
+# C02: the class a code point "effectively" carries is the one gem.Split uses; C03: every counting, indexing and
+# layout operation; C13 / C12: the Opts operations themselves were added by T1
+REGEN_OF.setdefault("C02", []).append("GemSplit")
+REGEN_OF.setdefault("C03", []).extend(["Chars", "Edit", "Collapse", "Wrap", "Justify", "Align", "Combine", "Table", "WrapOpts",
+                                       "AlignOpts", "JustifyOpts", "TwoCol", "DefTable", "InsertTable"])
+
+
+# C18: every public operation is total - all of them
+REGEN_OF["C18"] = REGEN_OF.get("C18", []) + [g for g in REGEN if g not in REGEN_OF.get("C18", []) and g != "GemInv"]
+
+
+def _close(groups):
+    out, todo = [], list(groups)
+    while todo:
+        g = todo.pop(0)
+        if g in out or g not in REGEN:
+            continue
+        out.append(g)
+        todo.extend(REGEN_CALLS.get(g, []))
+    return out
+
+
+for _pid in list(REGEN_OF):
+    REGEN_OF[_pid] = _close(REGEN_OF[_pid])
+
+
 def regen_theorems(pid):
     return (["RosedVerif.GenCodeEq.%s_regenerated" % f for g in REGEN_OF.get(pid, []) for f in REGEN[g]] +
             ["RosedVerif.GenCodeEq." + t for g in REGEN_OF.get(pid, []) for t in REGEN_CXA.get(g, [])])
